@@ -137,6 +137,12 @@ pub fn gen_profile(rng: &mut Rng, focus: Focus, thorough: bool) -> Profile {
             if rng.chance(0.15) {
                 p.max_hundredths = 100_000_000_000_000; // up to 1e12 kWh
             }
+            if rng.chance(0.02) {
+                // up to 1e16 kWh: weighted, beyond any 64-bit count of thousandths (one line per tag, so that the
+                // generator's own integer sums stay in range)
+                p.max_hundredths = 1_000_000_000_000_000_000;
+                p.f_multi = false;
+            }
         }
     }
     p
@@ -232,10 +238,10 @@ const PLAIN_WORDS: [&str; 15] = [
     "consumo del vector EAMBIENTE", "Vector energético", "id, vector, tipo", "BdC 1", "Caldera", "PV", "ACS", "Equipo de calefacción COP 3", "n_gen=2.5 n_d+e+c=0.88", "Paneles solares térmicos 2m2",
     "Producción fotovoltaica in situ", "Energía entregada", "SISTEMA SECUNDARIO FC_P01_E01  ventiladores", "x", "Demanda anual",
 ];
-const HOSTILE_BITS: [&str; 55] = [
+const HOSTILE_BITS: [&str; 61] = [
     "<", ">", "&", "\"", "'", "\\", "#", ",", ";", ":", "é", "ñ", "€", "日本", "\u{1F600}", "&amp;", "<b>", "]]>", "<!--", "--", "%s",
     "\t", "I&D;", "AT&T;", "&#0;", "&#xZZ;", "&#12", "&lt", "&;", "&amp;amp;", "&quot;x&quot;", "</Comentario>", "<![CDATA[", "?>", "\u{feff}",
-    "\u{fffd}", "[2 uds. de 8 kW]", "rango [35 - 45]", "[ -1, 2 ]", "{\"a\": [1, 2]}", "\"k\": 1,", "[", "]", "{", "}", "\\n", "\\u0000", "a\tb", "eﬁciencia", "ſ", "ı", "ŉ", "ǰ", "ß", "İ",
+    "\u{fffd}", "[2 uds. de 8 kW]", "rango [35 - 45]", "[ -1, 2 ]", "{\"a\": [1, 2]}", "\"k\": 1,", "[", "]", "{", "}", "\\n", "\\u0000", "a\tb", "eﬁciencia", "ſ", "ı", "ŉ", "ǰ", "ß", "İ", "### caldera ###", "# # # bomba", "##", "C:\\hulc\\caldera\\", "a: b: c", "clave: valor",
 ];
 /// Characters that no XML 1.0 document can contain (counted with the C0 control-character class).
 const CONTROL_BITS: [&str; 8] = ["\u{1}", "\u{8}", "\u{b}", "\u{1f}", "\u{fffe}", "\u{ffff}", "\u{0}", "\u{c}"];
@@ -369,7 +375,10 @@ pub fn gen_building(rng: &mut Rng, p: &Profile) -> Building {
             for s in &services {
                 for c in &carriers {
                     if rng.chance(0.65) {
-                        let n_lines = if p.f_multi && rng.chance(0.5) { 2 + rng.usize(2) } else { 1 };
+                        let mut n_lines = if p.f_multi && rng.chance(0.5) { 2 + rng.usize(2) } else { 1 };
+                        if p.f_multi && p.steps <= 24 && rng.chance(0.04) {
+                            n_lines = 5 + rng.usize(12); // a long list of lines with the same tags (5 to 16)
+                        }
                         for _ in 0..n_lines {
                             // ties: a service that consumes exactly what another one does (equal table values)
                             let tie: Option<Vec<i64>> = if p.f_ties {
@@ -516,7 +525,10 @@ pub fn gen_building(rng: &mut Rng, p: &Profile) -> Building {
 
         // --- AUX lines
         if p.f_aux && rng.chance(0.75) {
-            let n_aux = 1 + rng.usize(3);
+            let mut n_aux = 1 + rng.usize(3);
+            if p.steps <= 24 && rng.chance(0.05) {
+                n_aux = 4 + rng.usize(13); // many auxiliary lines on one system (4 to 16)
+            }
             for _ in 0..n_aux {
                 let ks = gen_values(rng, p);
                 push_line(&mut b, rng, p, id, Kind::Aux, &ks);
@@ -618,6 +630,18 @@ pub fn gen_building(rng: &mut Rng, p: &Profile) -> Building {
             let base = *rng.pick(&["Name", "Datetime", "Weather_file", "CTE_FUENTE", "Nota", "Año", "Descripción_del_edificio", "名前", "Ñ"]);
             let key = if i == 0 && rng.chance(0.5) { base.to_string() } else { format!("{}{}", base, i) };
             b.meta.push((key, gen_text(rng, p.f_hostile_text, p.f_control_chars)));
+        }
+        // the same free key on several lines (a note that spans lines), adjacent or not
+        if rng.chance(0.12) {
+            let key = rng.pick(&["CTE_NOTA", "Nota", "Descripción"]).to_string();
+            let k = 2 + rng.usize(2);
+            for _ in 0..k {
+                b.meta.push((key.clone(), gen_text(rng, p.f_hostile_text, p.f_control_chars)));
+            }
+            if rng.chance(0.4) {
+                b.meta.push(("Autor".into(), "x".into()));
+                b.meta.push((key, gen_text(rng, p.f_hostile_text, p.f_control_chars)));
+            }
         }
         // a key from the dictionary harvested from the source under test (an obsolete or undocumented key the code
         // may interpret), with a plain numeric value
